@@ -13,17 +13,40 @@ Section GOOD.
   Lemma GoodT_ext t th now clock tr evs : GoodT t th now clock tr -> GoodT t th now clock (evs ++ tr).
   Proof. induction evs as [|x l IH]; simpl; auto. intros H. apply GoodT_mono; auto. Qed.
 
+  (* the three usleep clauses survive any change that keeps the fields they mention and does not
+     put the thread to sleep in phase [2] *)
+  Definition usleep_clauses (t : tid) (th : thread) (clock : Z) : Prop :=
+    forall d, cur_op t th = Some (OCore (OUsleep d)) ->
+      (th_k th = [] \/ th_k th = [1] \/ th_k th = [2] \/ th_k th = [3]) /\
+      (th_k th = [1] ->
+         th_shut_issue th = false /\ expired (th_issued th) (usleep_exp th d) = false /\
+         th_ts th = usleep_exp th d /\ clock <= th_ts th /\
+         (th_state th = SLEEPING \/ th_err th <> 0 \/ clock = th_ts th)) /\
+      (th_k th = [2] -> expired (th_issued th) (usleep_exp th d) = true /\ th_state th <> SLEEPING) /\
+      (th_k th = [3] ->
+         th_shut_issue th = true /\ expired (th_issued th) (usleep_exp th d) = false /\
+         th_ts th = usleep_exp3 th d /\ clock <= th_ts th /\
+         (th_state th = SLEEPING \/ th_err th <> 0 \/ clock = th_ts th)).
+
+  Lemma usleep_clauses_k_nil t th clock : th_k th = [] -> usleep_clauses t th clock.
+  Proof.
+    intros Hk d _. rewrite Hk. split; [left; auto|].
+    split; [intros X; discriminate|split; intros X; discriminate].
+  Qed.
+
   (* READY <-> RUNNING <-> DONE ...: a change of th_state between two non-sleeping values *)
   Lemma GoodT_restate t th now clock tr ns :
     GoodT t th now clock tr -> th_state th <> SLEEPING -> ns <> SLEEPING ->
+    (th_k th <> [] -> ns = READY \/ ns = RUNNING) ->
     GoodT t (set_tstate th ns) now clock tr.
   Proof.
-    intros [A B C D E] Hs Hns. constructor; thsimpl; [exact A| | |exact D|exact E].
+    intros [A B C D E F G] Hs Hns Hk. constructor; thsimpl; [exact A| | |exact D|exact E| |exact G].
     - intros X; congruence.
     - intros d Hd. destruct (C d Hd) as (C0 & C1 & C2 & C3). split; [exact C0|]. split; [|split].
-      + intros Hk. destruct (C1 Hk) as (X1&X2&X3&X4&[X5|X5]); repeat split; auto; try tauto.
-      + intros Hk. destruct (C2 Hk). split; auto.
-      + intros Hk. destruct (C3 Hk) as (X1&X2&X3&X4&[X5|X5]); repeat split; auto; try tauto.
+      + intros Hk1. destruct (C1 Hk1) as (X1&X2&X3&X4&[X5|X5]); repeat split; auto; try tauto.
+      + intros Hk1. destruct (C2 Hk1). split; auto.
+      + intros Hk1. destruct (C3 Hk1) as (X1&X2&X3&X4&[X5|X5]); repeat split; auto; try tauto.
+    - intros X. destruct (Hk X); auto.
   Qed.
 
   (* a delivery by thread_interrupt / thread_shutdown whose event `ev` is pushed in the same step *)
@@ -31,108 +54,95 @@ Section GOOD.
     GoodT t th now clock tr -> e <> 0 -> delivers progs ev t e ->
     GoodT t (interrupted th e (length tr)) now clock (ev :: tr).
   Proof.
-    intros G He Hd. pose proof (GoodT_mono progs _ _ _ _ _ ev G) as G'.
-    destruct G' as [A B C D E]. unfold interrupted.
-    destruct (th_state th) eqn:Es; try (constructor; auto; fail).
-    - (* READY *)
-      destruct (th_err th =? 0) eqn:Ee; [|constructor; auto].
-      apply Z.eqb_eq in Ee.
-      constructor; thsimpl; [exact A|exact B| | |exact E].
+    intros G0 He Hd. pose proof (GoodT_mono progs _ _ _ _ _ ev G0) as G'.
+    unfold interrupted.
+    destruct (tstate_eqb_spec (th_state th) READY) as [Es|Hnr].
+    - rewrite Es. destruct (th_err th =? 0) eqn:Ee; [|exact G'].
+      apply Z.eqb_eq in Ee. destruct G' as [A B C D E F G].
+      constructor; thsimpl; [exact A|exact B| | |exact E|exact F|exact G].
       + intros d Hd'. destruct (C d Hd') as (C0 & C1 & C2 & C3). split; [exact C0|]. split; [|split].
-        * intros Hk. destruct (C1 Hk) as (X1&X2&X3&X4&X5). repeat split; auto.
+        * intros Hk. destruct (C1 Hk) as (X1&X2&X3&X4&[X5|[X5|X5]]); repeat split; auto; congruence.
         * intros Hk. destruct (C2 Hk). split; auto.
-        * intros Hk. destruct (C3 Hk) as (X1&X2&X3&X4&X5). repeat split; auto.
+        * intros Hk. destruct (C3 Hk) as (X1&X2&X3&X4&[X5|[X5|X5]]); repeat split; auto; congruence.
       + intros _. left. apply src_ok_new; auto.
-    - (* SLEEPING *)
-      constructor; thsimpl; [exact A| | | | ].
-      + discriminate.
-      + intros d Hd'. destruct (C d Hd') as (C0 & C1 & C2 & C3). split; [exact C0|]. split; [|split].
-        * intros Hk. destruct (C1 Hk) as (X1&X2&X3&X4&X5). repeat split; auto.
-        * intros Hk. destruct (C2 Hk). split; auto. discriminate.
-        * intros Hk. destruct (C3 Hk) as (X1&X2&X3&X4&X5). repeat split; auto.
-      + intros _. left. apply src_ok_new; auto.
-      + intros q Hq. discriminate.
+    - destruct (tstate_eqb_spec (th_state th) SLEEPING) as [Es|Hns].
+      + rewrite Es. destruct G' as [A B C D E F G].
+        constructor; thsimpl; [exact A| | | | | |exact G].
+        * discriminate.
+        * intros d Hd'. destruct (C d Hd') as (C0 & C1 & C2 & C3). split; [exact C0|]. split; [|split].
+          -- intros Hk. destruct (C1 Hk) as (X1&X2&X3&X4&X5). repeat split; auto.
+          -- intros Hk. destruct (C2 Hk). split; auto; try discriminate.
+          -- intros Hk. destruct (C3 Hk) as (X1&X2&X3&X4&X5). repeat split; auto.
+        * intros _. left. apply src_ok_new; auto.
+        * intros q Hq. discriminate.
+        * intros _. left; auto.
+      + destruct (th_state th); try congruence; exact G'.
   Qed.
 
   Lemma GoodT_set_shutdown t th now clock tr b : GoodT t th now clock tr -> GoodT t (set_tshutdown th b) now clock tr.
-  Proof. intros [A B C D E]. constructor; auto. Qed.
+  Proof. intros [A B C D E F G]. constructor; auto. Qed.
   Lemma GoodT_set_joined t th now clock tr b : GoodT t th now clock tr -> GoodT t (set_tjoined th b) now clock tr.
-  Proof. intros [A B C D E]. constructor; auto. Qed.
+  Proof. intros [A B C D E F G]. constructor; auto. Qed.
   Lemma GoodT_set_join_claimed t th now clock tr b : GoodT t th now clock tr -> GoodT t (set_tjoin_claimed th b) now clock tr.
-  Proof. intros [A B C D E]. constructor; auto. Qed.
+  Proof. intros [A B C D E F G]. constructor; auto. Qed.
   Lemma GoodT_set_retval t th now clock tr b : GoodT t th now clock tr -> GoodT t (set_tretval th b) now clock tr.
-  Proof. intros [A B C D E]. constructor; auto. Qed.
-
-  (* the op completes: pc+1, k = [] *)
-  Lemma GoodT_aret t th now clock tr :
-    GoodT t th now clock tr -> th_state th <> SLEEPING -> th_waitq th = None ->
-    (th_err th <> 0 -> src_ok progs tr t (th_err th) (th_esrc th)) ->
-    GoodT t (set_tk (set_tpc th (S (th_pc th))) []) now clock tr.
-  Proof.
-    intros [A B C D E] Hs Hw Hsrc. constructor; thsimpl; [exact A|exact B| | | ].
-    - intros d _. split; [left; auto|]. repeat split; intros X; discriminate.
-    - intros X. left. auto.
-    - intros q Hq. congruence.
-  Qed.
+  Proof. intros [A B C D E F G]. constructor; auto. Qed.
 
   (* the op starts: ghost fields *)
   Lemma GoodT_start t th now clock tr :
     GoodT t th now clock tr -> th_k th = [] ->
     GoodT t (set_tshut_issue (set_tissued th now) (th_shutdown th)) now clock tr.
   Proof.
-    intros [A B C D E] Hk. constructor; thsimpl; [lia|exact B| |exact D|exact E].
-    intros d _. rewrite Hk. split; [left; auto|]. repeat split; intros X; discriminate.
+    intros [A B C D E F G] Hk. constructor; thsimpl; [lia|exact B| |exact D|exact E|exact F|exact G].
+    intros d _. split; [left; exact Hk|]. split; [intros X; congruence|split; intros X; congruence].
   Qed.
 
   Lemma GoodT_fresh t now clock tr j :
     0 <= now -> GoodT t (mkThread READY 0 None 0 j false 0 0 [] 0 false 0 false false) now clock tr.
   Proof.
-    intros Hn. constructor; simpl; [exact Hn|discriminate| |congruence|discriminate].
-    intros d _. split; [left; auto|]. repeat split; intros X; discriminate.
+    intros Hn. constructor; simpl; [exact Hn|discriminate| |congruence|discriminate|congruence|reflexivity].
+    apply usleep_clauses_k_nil. reflexivity.
   Qed.
 
-  (* woken by the timer: state SLEEPING -> READY, waitq := None, at a moment when ts <= now *)
-  Lemma GoodT_timer_wake t th now clock tr now' :
-    GoodT t th now clock tr -> th_state th = SLEEPING -> th_ts th <= now' -> now' <= clock -> now <= now' ->
-    GoodT t (set_tstate (set_twaitq th None) READY) now' clock tr.
+  (* woken by the timer: state SLEEPING -> READY, waitq := None, at a moment when ts <= now' = clock *)
+  Lemma GoodT_timer_wake t th now clock tr :
+    GoodT t th now clock tr -> th_state th = SLEEPING -> th_ts th <= clock -> now <= clock ->
+    GoodT t (set_tstate (set_twaitq th None) READY) clock clock tr.
   Proof.
-    intros [A B C D E] Hs Hts Hnc Hnn. specialize (B Hs). constructor; thsimpl; [lia| | |exact D| ].
+    intros [A B C D E F G] Hs Hts Hnn. specialize (B Hs). constructor; thsimpl; [lia| | |exact D| | |exact G].
     - discriminate.
     - intros d Hd. destruct (C d Hd) as (C0 & C1 & C2 & C3). split; [exact C0|]. split; [|split].
       + intros Hk. destruct (C1 Hk) as (X1&X2&X3&X4&X5). repeat split; auto. right; right. lia.
       + intros Hk. destruct (C2 Hk). tauto.
       + intros Hk. destruct (C3 Hk) as (X1&X2&X3&X4&X5). repeat split; auto. right; right. lia.
     - discriminate.
+    - intros _. left; auto.
   Qed.
 
-  (* only the clocks move (now' >= now), thread untouched: sleeping threads need clock' <= ts;
-     awake threads in [1]/[3] need the clocks unchanged *)
-  Lemma GoodT_clock_same t th now clock tr : GoodT t th now clock tr -> GoodT t th now clock tr.
-  Proof. auto. Qed.
-
-  Lemma GoodT_now_refresh t th now clock tr :
-    GoodT t th now clock tr -> now <= clock -> (th_state th <> SLEEPING -> now = clock) ->
-    GoodT t th clock clock tr.
-  Proof.
-    intros [A B C D E] Hnc Haw. constructor; [lia|exact B| |exact D|exact E].
-    intros d Hd. destruct (C d Hd) as (C0 & C1 & C2 & C3). split; [exact C0|]. split; [|split]; auto.
-    - intros Hk. destruct (C1 Hk) as (X1&X2&X3&X4&[X5|[X5|X5]]); repeat split; auto.
-      right; right. destruct (tstate_eqb_spec (th_state th) SLEEPING) as [Y|Y]; [|rewrite <- (Haw Y); auto].
-      specialize (B Y). lia.
-    - intros Hk. destruct (C3 Hk) as (X1&X2&X3&X4&[X5|[X5|X5]]); repeat split; auto.
-      right; right. destruct (tstate_eqb_spec (th_state th) SLEEPING) as [Y|Y]; [|rewrite <- (Haw Y); auto].
-      specialize (B Y). lia.
-  Qed.
+  (* photon::now is refreshed (it only grows) *)
+  Lemma GoodT_now_ge t th now now' clock tr : GoodT t th now clock tr -> now <= now' -> GoodT t th now' clock tr.
+  Proof. intros [A B C D E F G] H. constructor; auto. lia. Qed.
 
   (* idle: the clock advances to clock' while the thread sleeps until ts >= clock' *)
-  Lemma GoodT_idle_advance t th now clock tr clock' :
+  Lemma GoodT_idle_sleeping t th now clock tr clock' :
     GoodT t th now clock tr -> th_state th = SLEEPING -> clock <= clock' -> clock' <= th_ts th ->
     GoodT t th now clock' tr.
   Proof.
-    intros [A B C D E] Hs H1 H2. specialize (B Hs). constructor; [exact A|intros _; lia| |exact D|exact E].
+    intros [A B C D E F G] Hs H1 H2. specialize (B Hs). constructor; [exact A|intros _; lia| |exact D|exact E|exact F|exact G].
     intros d Hd. destruct (C d Hd) as (C0 & C1 & C2 & C3). split; [exact C0|]. split; [|split]; auto.
     - intros Hk. destruct (C1 Hk) as (X1&X2&X3&X4&X5); repeat split; auto.
     - intros Hk. destruct (C3 Hk) as (X1&X2&X3&X4&X5); repeat split; auto.
+  Qed.
+  (* ... and threads that do not exist (any more) are in no op *)
+  Lemma GoodT_idle_dead t th now clock tr clock' :
+    GoodT t th now clock tr -> th_state th <> SLEEPING -> th_state th <> READY -> th_state th <> RUNNING ->
+    GoodT t th now clock' tr.
+  Proof.
+    intros [A B C D E F G] H1 H2 H3.
+    assert (Hk : th_k th = []).
+    { destruct (th_k th) eqn:Ek; auto. exfalso. destruct F as [X|[X|X]]; [congruence|auto|auto|auto]. }
+    constructor; [exact A|intros X; congruence| |exact D|exact E|intros X; congruence|exact G].
+    apply usleep_clauses_k_nil; auto.
   Qed.
 
 End GOOD.
